@@ -49,7 +49,9 @@ class FoldInfo:
 # ------------------------------------------------------------------------------------------------ iterables
 def _seq_range(ctx, path, seq):
     """Normalise a sequence term to (base, lo, hi): slices of a base list iterate a sub-range of its indices."""
-    seq = simp(seq)
+    s0 = simp(seq)
+    if not (z3.is_app(s0) and s0.decl().kind() == z3.Z3_OP_ITE):
+        seq = s0
     if z3.is_app(seq) and seq.decl().kind() == z3.Z3_OP_SEQ_EXTRACT:
         base, off, ln = seq.children()
         b2, lo2, hi2 = _seq_range(ctx, path, base)
@@ -126,7 +128,7 @@ def iter_source(ctx, fr, path, node):
                 which = node.func.attr
 
                 def elem(q, k, has=has, get=get, keys=keys, ka=ka, va=va, which=which, d=d):
-                    kt = simp(keys[k])
+                    kt = smt.nth(keys, k)
                     q.assume(z3.Select(has, kt), "dict iteration yields present keys")
                     kv = Val(kt, ka)
                     f = ann_fact(kt, ka, ctx.ct)
@@ -163,8 +165,24 @@ def source_of_value(ctx, p, v, node=None):
         base, lo, hi = _seq_range(ctx, p, seq)
         ea = ann_elem(v.ann)
 
-        def elem(q, kk, base=base, ea=ea, v=v):
-            t = simp(base[kk])
+        fused = None
+        if z3.is_app(base) and base.decl().name() in ctx.folds:
+            fi = ctx.folds[base.decl().name()]
+            pc = simp(fi.piece)
+            if fi.kind == "seq" and fi.unit_len == 1 and z3.is_app(pc) and pc.decl().kind() == z3.Z3_OP_SEQ_UNIT:
+                fused = (fi, pc.arg(0), base.arg(0))
+
+        def elem(q, kk, base=base, ea=ea, v=v, fused=fused):
+            if fused is not None:
+                # map fusion: the k-th element of a map fold is its piece at index lo + k
+                fi, el0, flo = fused
+                idx = simp(flo + kk)
+                t = simp(z3.substitute(el0, (fi.K0, idx)))
+                for bf in fi.facts:
+                    q.assume(z3.substitute(bf, (fi.K0, idx)))
+                q.assume(smt.nth(base, kk) == t, "element of a map fold")
+            else:
+                t = smt.nth(base, kk)
             f = ann_fact(t, ea, ctx.ct)
             if f is not None:
                 q.assume(f, "declared element shapes")
@@ -183,7 +201,7 @@ def source_of_value(ctx, p, v, node=None):
         p.note("set iteration: an arbitrary fixed permutation of the contents")
 
         def elem(q, kk, perm=perm, arr=arr, ea=ea):
-            t = simp(perm[kk])
+            t = smt.nth(perm, kk)
             q.assume(z3.Select(arr, t), "set iteration yields members")
             f = ann_fact(t, ea, ctx.ct)
             if f is not None:
@@ -196,7 +214,7 @@ def source_of_value(ctx, p, v, node=None):
         ka = v.ann[1] if v.ann and v.ann[0] == "dict" else None
 
         def elem(q, kk, keys=keys, has=has, ka=ka):
-            t = simp(keys[kk])
+            t = smt.nth(keys, kk)
             q.assume(z3.Select(has, t), "dict iteration yields present keys")
             f = ann_fact(t, ka, ctx.ct)
             if f is not None:
@@ -302,7 +320,7 @@ def make_generic(ctx, path, name, entry):
         return Generic(name, entry, Val(V.VStr(g), ("str",)), g, "str")
     if k == "VSet":
         sid = ctx.new(tag + "_sid", smt.IntS)
-        v = Val(V.VSet(sid), entry.ann, own=entry.own, deep=entry.deep, src=entry.src)
+        v = Val(V.VSet(sid, V.fz(entry.t)), entry.ann, own=entry.own, deep=entry.deep, src=entry.src)
         return Generic(name, entry, v, smt.setof(sid), "set")
     if k == "VInt" and not (c == "VInt" and z3.is_int_value(t.arg(0))):
         g = ctx.new(tag, smt.IntS)
@@ -421,7 +439,7 @@ def _summarise_nonempty(ctx, fr, path, src, body, lo, hi, peel):
                 pre.env[n] = g.val
         hgens = {}
         for (field, oid) in heap_locs:
-            entry = Val(simp(z3.Select(ctx.heap_arr(path, field), oid)), ctx.field_ann_guess(field))
+            entry = Val(ctx._select(path, field, oid), ctx.field_ann_guess(field))
             entry = _with_known_contents(ctx, path, entry)
             g = make_generic(ctx, pre, f"{field}", entry)
             hgens[(field, oid.get_id())] = (g, oid, field)
@@ -556,9 +574,16 @@ def _summarise_nonempty(ctx, fr, path, src, body, lo, hi, peel):
             ctx.folds.setdefault(nm, FoldInfo(nm, g.kind, fn, K0, piece, [norm(f) for f in body_facts], unit_len))
             deep = entry.deep and all(v.own != "borrow" and (v.own != "fresh" or v.deep) for _, v in posts)
 
-            def mk(a, b, fn=fn, entry=entry, kind=g.kind, deep=deep):
+            rann = entry.ann
+            if g.kind == "seq" and ann_elem(rann) is None:
+                for _, v in posts:
+                    if ann_elem(v.ann) is not None:
+                        rann = v.ann
+                        break
+
+            def mk(a, b, fn=fn, entry=entry, kind=g.kind, deep=deep, rann=rann):
                 if kind == "seq":
-                    return Val(V.VList(simp(z3.Concat(ctx.as_seq(path, entry), fn(a, b)))), entry.ann, own=entry.own, deep=deep, src=entry.src)
+                    return Val(V.VList(simp(z3.Concat(ctx.as_seq(path, entry), fn(a, b)))), rann, own=entry.own, deep=deep, src=entry.src)
                 return Val(V.VStr(simp(z3.Concat(ctx.as_str(path, entry), fn(a, b)))), ("str",))
             return mk, nm
         if g.kind == "set":
@@ -642,7 +667,7 @@ def _summarise_nonempty(ctx, fr, path, src, body, lo, hi, peel):
         loc_summaries.append((("env", n), mk, g))
     for key, (g, oid, field) in hgens.items():
         def post_of(p, field=field, oid=oid):
-            t = simp(z3.Select(p.heap[field], oid))
+            t = ctx._select(p, field, oid)
             return _with_known_contents(ctx, p, Val(t, g.val.ann, own=g.val.own))
         mk, nm = summarise_location(g, post_of)
         loc_summaries.append((("heap", field, oid), mk, g))
@@ -940,6 +965,8 @@ def eval_iterable_to_list(ctx, fr, path, node, kind, call_node):
         for p, v in eval_comprehension(ctx, fr, path, node, as_kind="set" if kind in ("set", "frozenset") else "list"):
             if kind == "tuple":
                 v = Val(V.VTuple(ctx.as_seq(p, v)), ("tuple", []), own="imm")
+            if kind == "frozenset":
+                v = ctx.mk_set(p, ctx.set_arr(p, v), ("frozenset", ann_elem(v.ann)), frozen=True)
             yield p, v
         return
     for p, v in ev(ctx, fr, path, node):
@@ -970,10 +997,16 @@ def eval_iterable_to_list(ctx, fr, path, node, kind, call_node):
                 raise Unsupported(f"{kind}() of unknown kind")
         else:
             if k == "VSet":
-                yield p, ctx.mk_set(p, ctx.set_arr(p, v), v.ann)
+                ns = ctx.mk_set(p, ctx.set_arr(p, v), (kind, ann_elem(v.ann)), frozen=(kind == "frozenset"))
+                sid0 = simp(V.sid(v.t))
+                if z3.is_int_value(sid0) and sid0.as_long() in ctx.set_origin:
+                    ctx.set_origin[simp(V.sid(ns.t)).as_long()] = ctx.set_origin[sid0.as_long()]
+                yield p, ns
             elif k in ("VList", "VTuple") or (v.ann is not None and v.ann[0] == "seq"):
                 seq = ctx.as_seq(p, v)
-                yield p, ctx.mk_set(p, seq_to_set_arr(ctx, p, seq), ("set", ann_elem(v.ann)))
+                ns = ctx.mk_set(p, seq_to_set_arr(ctx, p, seq), (kind, ann_elem(v.ann)), frozen=(kind == "frozenset"))
+                ctx.set_origin[simp(V.sid(ns.t)).as_long()] = seq
+                yield p, ns
             else:
                 raise Unsupported(f"{kind}() of unknown kind")
 
@@ -1106,6 +1139,44 @@ def builtin_sorted(ctx, fr, path, node):
             yield q, nv
 
 
-def fold_join(ctx, p, sep, seq):
-    """sep.join(CM_h(lo,hi)) for a fold of string pieces and an empty separator -> CS fold over the same pieces."""
+def _seq_piece_to_str(t):
+    """Concatenation of the (string) elements of a piece term built from empty / unit / concat / ite."""
+    t = simp(t)
+    if z3.is_app(t):
+        k = t.decl().kind()
+        if k == z3.Z3_OP_SEQ_EMPTY:
+            return z3.StringVal("")
+        if k == z3.Z3_OP_SEQ_UNIT:
+            return V.s(t.arg(0))
+        if k == z3.Z3_OP_SEQ_CONCAT:
+            parts = [_seq_piece_to_str(c) for c in t.children()]
+            if any(x is None for x in parts):
+                return None
+            return z3.Concat(*parts)
+        if k == z3.Z3_OP_ITE:
+            a, b = _seq_piece_to_str(t.arg(1)), _seq_piece_to_str(t.arg(2))
+            if a is None or b is None:
+                return None
+            return z3.If(t.arg(0), a, b)
     return None
+
+
+def fold_join(ctx, p, sep, seq):
+    """"".join(CM_h(lo,hi)) -> CS fold over the same pieces (join with the empty separator is concatenation)."""
+    if smt.str_lit(sep) != "":
+        return None
+    seq = simp(seq)
+    if not (z3.is_app(seq) and seq.decl().name() in ctx.folds):
+        return None
+    fi = ctx.folds[seq.decl().name()]
+    if fi.kind != "seq":
+        return None
+    sp = _seq_piece_to_str(fi.piece)
+    if sp is None:
+        return None
+    sp = simp(sp)
+    nm = "CS_" + _key(sp)
+    fn = ctx.func(nm, smt.IntS, smt.IntS, smt.StrS)
+    ctx.folds.setdefault(nm, FoldInfo(nm, "str", fn, fi.K0, sp, fi.facts))
+    p.note("''.join(pieces) is the concatenation fold of the pieces")
+    return fn(seq.arg(0), seq.arg(1))
